@@ -568,3 +568,7 @@ func VerifC17SilentTool() {
 		vassert(holes == 0, "the streamed form has a message for every call, also for a tool that emitted no frame")
 	}
 }
+
+// thorough tier: four calls
+func VerifC17Invoke4() { c17Run(4, false, false, true, false, false) }
+func VerifC17Stream4() { c17Run(4, true, false, true, false, false) }
